@@ -141,26 +141,6 @@ theorem abs_of_mono {sh sh' : Sh} (hm : SigMono sh sh') (hf : sh'.fin = true →
 
 /-! ### the call-level runs of `StreamSolo` are reachable runs -/
 
-/-- a step of `t` changes no other thread's program counter -/
-theorem step_pc_other {s s' : St} {t u : Tid} (h : step s t = some s') (hu : u ≠ t) : s'.pc u = s.pc u := by
-  unfold step at h
-  pc_cases s t hp =>
-    step_explode h hp
-    all_goals (exact upd_pc_ne _ _ _ _ _ hu)
-
-theorem runSolo_pc_other (n : Nat) {s : St} {t u : Tid} (hu : u ≠ t) : (runSolo n s t).pc u = s.pc u := by
-  induction n generalizing s with
-  | zero => rfl
-  | succ n ih =>
-    rw [runSolo_succ]
-    cases hs : step s t with
-    | none => rfl
-    | some s' => simp only; rw [ih, step_pc_other hs hu]
-
-theorem call_pc_other {s : St} {t u : Tid} (c : Call) (hu : u ≠ t) : (call s t c).pc u = s.pc u := by
-  unfold call
-  rw [runSolo_pc_other _ hu, setPc_eq_upd, upd_pc_ne _ _ _ _ _ hu]
-
 theorem reach_runSolo (n : Nat) {s : St} (t : Tid) (h : Reach s) : Reach (runSolo n s t) := by
   induction n generalizing s with
   | zero => exact h
@@ -173,5 +153,13 @@ theorem reach_runSolo (n : Nat) {s : St} (t : Tid) (h : Reach s) : Reach (runSol
 theorem reach_call {s : St} {t : Tid} (c : Call) (h : Reach s) (hd : ∃ r, s.pc t = .done r) :
     Reach (call s t c) :=
   reach_runSolo _ t (h.spawn hd)
+
+/-! ### a witness state for the terminated → canceled transition -/
+
+/-- thread 0 is inside `MsgSend` (parked in Marshal, holding the write lock), thread 1 has handled
+    a remote `KindError` (stream terminated, not finished), thread 2 is inside `Cancel`, about to
+    set the `cancel` signal -/
+def tcState : St :=
+  runSolo 3 ((call (call {} 0 (.msgSend [] true)) 1 (.handle kindError false true [])).setPc 2 (.start (.cancel 7))) 2
 
 end Drpc.Stream
